@@ -80,6 +80,48 @@ def check_one(case, res):
         res["nontrivial"] += 1
 
 
+def leapify(loads):
+    """8784-h profile of a leap year: 29 February repeats 28 February"""
+    feb28 = LG.month_start_hour(1) + 24 * 27
+    return loads[: feb28 + 24] + loads[feb28 : feb28 + 24] + loads[feb28 + 24 :]
+
+
+def check_years(case, res):
+    """a sequence of single-year load sets built one after the other in one process: non-leap, leap (8784 h), non-leap"""
+    base = profile_of({k: v for k, v in case.items() if k != "years_sequence"})
+    for k, year in enumerate(case["years_sequence"]):
+        leap = year % 4 == 0
+        loads = leapify(base) if leap else base
+        dim = LG.DAYS_IN_MONTH_LEAP if leap else LG.DAYS_IN_MONTH
+        ref = LG.monthly_reference(loads, dim)
+        for n_months in case["horizons"]:
+            res["evals"] += 1
+            c1 = dict(case, years_sequence=case["years_sequence"][: k + 1], horizons=[n_months])
+            try:
+                hl = hybrid.make_hybrid(loads, n_months, years=[year])
+            except Exception as e:  # noqa: BLE001
+                res["violations"].append(core.viol("hybrid_load_raised", c1, msg=f"HybridLoad(years=[{year}]) raised {type(e).__name__}: {e}", exc=type(e).__name__))
+                continue
+            ends = LG.month_end_hours(n_months, dim)
+            try:
+                en, _ = hybrid.month_energies(hl, n_months, ends)
+            except LookupError as e:
+                res["violations"].append(core.viol("no_month_end_breakpoint", c1, msg=f"years=[{year}] after {case['years_sequence'][:k]}: no breakpoint at the end of simulated month {e.args[0]} (hour {ends[e.args[0] - 1]})",
+                                                   month=((e.args[0] - 1) % 12) + 1, leap=leap))
+                continue
+            for m in range(n_months):
+                r = ref[m % 12]
+                want = r["rej_kwh"] - r["ext_kwh"]
+                tol = 1e-6 * max(1.0, abs(want), r["peak_rej"], r["peak_ext"], r["rej_kwh"], r["ext_kwh"])
+                if abs(en[m] - want) > tol:
+                    res["violations"].append(core.viol("month_energy_not_conserved", c1, observed=en[m], expected=want,
+                                                       msg=f"years=[{year}] after {case['years_sequence'][:k]}: simulated month {m + 1}: hybrid {en[m]:.6f} kWh, input {want:.6f} kWh",
+                                                       direction="n/a", same_day=False, first_day_heating_peak=False, start_clamped=False, sim_month_1=(m == 0), leap=leap))
+                    break
+    res["nontrivial"] += 1
+    res.outcome("year_sequences")
+
+
 def expand(chunk):
     kind = chunk["kind"]
     hz = chunk["horizons"]
@@ -113,6 +155,10 @@ def expand(chunk):
 
 def run_case(case):
     res = core.Result(evals=0)
+    if "years_sequence" in case:
+        check_years(case, res)
+        res["sample"] = dict(case, patterns="...") if "patterns" in case else dict(case)
+        return res
     if "profile" in case:
         check_one(case, res)
         return res
@@ -157,13 +203,17 @@ def main(run: core.Run, only=None):
         fams.setdefault(fam, []).append(c)
     for fam, cs in fams.items():
         run.drive(cs, family=fam)
+    A = LG.pattern_alphabet()
+    ys = [{"profile": "patterns", "patterns": [A[i]] * 12, "years_sequence": seq, "horizons": [12, 25]} for i in (8, 45, 100) for seq in ([2019, 2020, 2019], [2020, 2019], [2021, 2024])]
+    ys += [{"profile": "office", "years_sequence": [2019, 2020, 2019], "horizons": [12, 37]}]
+    run.drive(ys, family="year-sequences")
     return run.finish(
         rule="profiles built from month patterns (direction x peak day {first,2nd,15th,last-1,last} x shape {1 h, 6 h, 30 h} x base "
              "{0, 20 %}); P0 = same pattern every month (whole alphabet), P1 = one deviating month in {Jan,Feb,Jun,Dec} over the "
              "whole alphabet, P2 (thorough) = two adjacent deviating months over the boundary patterns; one evaluation = one "
              "(profile, horizon) HybridLoad checked month by month; non-trivial = pattern-built profile",
         bounds={"pattern_alphabet": nA, "boundary_patterns": nB, "horizons": "see families", "deviating_months": [1, 2, 6, 12]},
-        assumptions=["non-leap 8760-hour year (the only input GHEManager can pass)",
+        assumptions=["non-leap 8760-hour year (the only input GHEManager can pass); the year-sequences family also builds single leap years (8784 h) through HybridLoad directly",
                      "month energy = signed sum of load x breakpoint difference between month-end breakpoints, as the property words it",
                      "tolerance 1e-6 relative to max(1, |month energy|, monthly totals, peaks)"],
         require_outcomes=("months_both", "months_cooling_only", "months_heating_only", "months_no_load"),
